@@ -8,6 +8,11 @@ ids = [p["id"] for p in props]
 HOOK_COMMITS = ["332865e1b", "bf49db00e", "0b99e4fc0", "68bfb6d5a"]
 
 CHECKS = {
+ "C16": dict(
+   level="exploration", design="§4 C16",
+   technique="runtime monitoring with sanitizers: the real engine executed under AddressSanitizer (deterministic executor and production thread pool), ThreadSanitizer (thread pool, 2-16 threads, injected pauses), valgrind memcheck (plain build) and, in the thorough tier, Miri; report monitor over each process' stderr (ASan/TSan/memcheck/Miri report blocks, deduplicated by tool, bug kind and the first in-repo frames) plus a monitor for failed assert!/debug_assert!/unreachable! inside /repo/crates",
+   text="Own corpus aimed at the sizes the property names (variable-length values of 0/11/12/13/40/300/4096/100000 bytes, 0-2500 rows, batch_size 1-2048, partitions 1-16, many-to-many hash and nested-loop joins, grouped/distinct/rollup aggregation, multi-key sorts, CTAS and self-insert, lists, string functions; Parquet with 4 encodings x 4 codecs and CSV under 1-byte / random / Pending read chunking), and samples of the workloads of ten other checks re-run with the driver switched to the instrumented build. Evidence lists per build: cases, statements, operators reached (from hook H1), thread counts, report count.",
+   note="Held on the executions produced only: red-zone tools miss intra-object and far out-of-bounds accesses; LeakSanitizer is off; Miri runs with permissive provenance and cannot cross the zstd FFI. A quick run needs two instrumented rebuilds (asan ~3 min, tsan with -Zbuild-std ~4 min on an idle machine). Two memory-safety defects were found by C13/C20 on the plain build (unwritten output slots read as string views) and repaired."),
  "C05": dict(
    level="exploration", design="§4 C05",
    technique="runtime monitoring: reference-value oracle (Python: exact integers/Fractions, IEEE floats bit-exact, datetime, 2-ulp tolerance for transcendental functions) on echoed argument tuples, and a context-agreement monitor: the same expression over the same tuple evaluated in nine contexts of the real engine must give the same value",
